@@ -803,7 +803,8 @@ class _SynodicMapDynamicsService(_MapDynamicsServiceBase):
         section_axis = section_axis or self.map_config.section_axis
         plane_coords = plane_coords or self.map_config.plane_coords
         direction = direction if direction is not None else self.map_config.direction
-        section_id = self._make_section_key(section_axis, section_offset or self.map_config.section_offset, plane_coords, direction)
+        section_offset = section_offset if section_offset is not None else self.map_config.section_offset  # 0.0 is a valid offset
+        section_id = self._make_section_key(section_axis, section_offset, plane_coords, direction)
         results = SynodicMapResults(
             payload.points, payload.states, payload.labels, payload.times, payload.trajectory_indices
         )
